@@ -174,6 +174,7 @@ def wiring(ck):
     table = {"getInitialAlignment": "primaryGenerator", "refine": "secondaryGenerator"}
     coord = p.find_class("_WorkflowCoordinator")
     judged = 0
+    seen_callees = set()
     for m in coord.methods.values():
         for site in ctx.cg.sites.get(m.qualname, []):
             for c in site.repo_callees():
@@ -185,6 +186,7 @@ def wiring(ck):
                     if g is None:
                         raise AnalysisError(f"{site.where}: sequenceGenerator argument of {c.fn.name} not bound")
                     judged += 1
+                    seen_callees.add(c.fn.name)
                     want = table[c.fn.name]
                     ok = isinstance(g, ast.Attribute) and isinstance(g.value, ast.Name) and g.attr == want
                     ck.judge(ok, "C04.1", f"{short(m)}->{c.fn.name}:generator", site.where,
@@ -197,7 +199,9 @@ def wiring(ck):
                             ck.judge(mine == best and mine > 0, "C04.1", f"{short(m)}->{c.fn.name}:{pname}", site.where,
                                      f"{pname} <- args.{a.attr}", found=f"args.{a.attr} bound to {pname}",
                                      required="the like-named parameter")
-    ck.floor("C04.1 generator uses in the coordinator", judged, 3)
+    # (three call sites on the pinned tree - forward, reverse, refine; a shared helper for the two strands leaves two)
+    ck.floor("C04.1 generator uses in the coordinator", judged, 2)
+    ck.floor("C04.1 passes whose generator is judged (primary, secondary)", len(seen_callees), 2)
 
 
 # ------------------------------------------------------------------------------------------------------------ C04.2
